@@ -36,7 +36,8 @@ IsName(s) == s # <<>> /\ NameLen(s, 1) = Len(s)
 (*                with "_" are mapped to None; the others are absent       *)
 (*        "table" explicit table mtab: sequence of <<name, has, value>>    *)
 (*   ek = "none" | "set" (NAME has the value "E{NAME}$$", other spellings  *)
-(*        of NAME hold "WRONGENV") | "table"                               *)
+(*        of NAME hold "WRONGENV") | "empty" (NAME is defined and its      *)
+(*        value is the empty string: a value like any other) | "table"     *)
 Missing  == [has |-> FALSE, v |-> ""]
 Found(v) == [has |-> TRUE, v |-> v]
 
@@ -62,6 +63,7 @@ MapVal(sc, lname) ==
 EnvVal(sc, name) ==
   CASE sc.ek = "none"  -> Missing
     [] sc.ek = "set"   -> Found("E{" \o Str(name) \o "}$$")
+    [] sc.ek = "empty" -> Found("")
     [] sc.ek = "table" -> TabLookup(ETabOf(sc), Str(name))
 
 -------------------------------------------------------------------------
